@@ -55,6 +55,7 @@ def cases(tier, seed):
         base += designs.misc_cases() + designs.dup_cases()
         base += designs.expr_cases(200, seed, n=8, maxw=6)
         base += designs.seq_cases(widths=(1, 4, 8))
+    base += designs.carg_cases((1, 3)) if tier == 'quick' else designs.carg_cases((1, 2, 3, 4)) + designs.constop_cases()
     for i, c in enumerate(base):
         for merge in (True, False):
             out.append(dict(c, K=K, merge=merge, uwb=bool((i + merge) % 2), wb=('same', 'foreign', 'implicit')[(i // 2 + merge) % 3]))
